@@ -921,7 +921,9 @@ class Evaluator:
         if isinstance(a, ClassV) and isinstance(b, ClassV):
             return a.ci is b.ci
         if isinstance(a, ExtV) and isinstance(b, ExtV):
-            return a.dotted == b.dotted
+            na = "numpy." + a.dotted.split(":")[1] if a.dotted.startswith("ufunc:") else a.dotted
+            nb = "numpy." + b.dotted.split(":")[1] if b.dotted.startswith("ufunc:") else b.dotted
+            return na == nb
         if isinstance(a, ExtV) or isinstance(b, ExtV):
             other = b if isinstance(a, ExtV) else a
             if isinstance(other, (ClassV, StrV, TupleV, DictV, ListV, ObjV, Num)):
@@ -958,7 +960,9 @@ class Evaluator:
             if isinstance(a, (Num, NoneV, BoolV, TupleV, ListV, DictV)) or isinstance(b, (Num, NoneV, BoolV, TupleV, ListV, DictV)):
                 return False
         if isinstance(a, ExtV) and isinstance(b, ExtV):
-            return a.dotted == b.dotted
+            na = "numpy." + a.dotted.split(":")[1] if a.dotted.startswith("ufunc:") else a.dotted
+            nb = "numpy." + b.dotted.split(":")[1] if b.dotted.startswith("ufunc:") else b.dotted
+            return na == nb
         if isinstance(a, ClassV) and isinstance(b, ClassV):
             return a.ci is b.ci
         if isinstance(a, BoolV) and isinstance(b, BoolV):
